@@ -105,14 +105,12 @@ Definition v_matchable_def (v : iview) : bool :=
   Bool.eqb (v_matchable v)
            (v_avail v && negb (v_perr v) && negb (v_once v && negb (is_nil (v_assigned v)))).
 
-Definition find_view (u : Z) (l : list iview) : option iview := find (fun v => v_uid v =? u) l.
+(* "some dumped reservation has uid u, sits on node n and satisfies extra" *)
+Definition has_view (l : list iview) (u n : Z) (extra : iview -> bool) : bool :=
+  existsb (fun v => (v_uid v =? u) && (v_node v =? n) && extra v) l.
 
 Definition entry_sound (l : list iview) (e : Z * list Z) : bool :=
-  negb (fst e =? 0)
-  && forallb (fun u => match find_view u l with
-                       | Some v => v_node v =? fst e
-                       | None => false
-                       end) (snd e).
+  forallb (fun u => negb (fst e =? 0) && has_view l u (fst e) (fun _ => true)) (snd e).
 Definition o_sound (o : cview) : bool :=
   forallb (entry_sound (o_infos o)) (o_onnode o)
   && forallb (entry_sound (o_infos o)) (o_matchable o)
@@ -120,12 +118,10 @@ Definition o_sound (o : cview) : bool :=
 Definition o_complete (o : cview) : bool :=
   forallb (fun v => (v_node v =? 0) || idx_mem (v_node v) (v_uid v) (o_onnode o)) (o_infos o).
 
+Definition visited_ok (v : iview) : bool :=
+  v_avail v && negb (v_perr v) && (negb (v_gate v) || v_matchable v).
 Definition visit_ok (o : cview) (n : Z) (us : list Z) : bool :=
-  forallb (fun u => match find_view u (o_infos o) with
-                    | Some v => (v_node v =? n) && v_avail v && negb (v_perr v)
-                                && (negb (v_gate v) || v_matchable v)
-                    | None => false
-                    end) us.
+  forallb (fun u => has_view (o_infos o) u n visited_ok) us.
 Definition o_visit_ok (o : cview) : bool :=
   forallb (fun p : Z * list Z => visit_ok o (fst p) (snd p)) (combine node_ids (o_visit o))
   && forallb (fun e : Z * list Z => visit_ok o (fst e) (snd e)) (o_matchable o).
